@@ -6,12 +6,14 @@
 from __future__ import annotations
 
 import importlib.metadata
+from collections.abc import Callable
 from contextvars import ContextVar
 from http import HTTPStatus
 from io import BytesIO, IOBase
 
 import falcon
 import pyarrow as pa
+from pyarrow import ipc
 
 from vgi_rpc.rpc import _EMPTY_SCHEMA, RpcError, VersionError, _write_error_batch
 from vgi_rpc.rpc._common import _current_request_batch
@@ -120,7 +122,10 @@ def _check_content_type(req: falcon.Request) -> None:
 
 
 def _error_response_stream(
-    exc: BaseException, schema: pa.Schema = _EMPTY_SCHEMA, server_id: str | None = None
+    exc: BaseException,
+    schema: pa.Schema = _EMPTY_SCHEMA,
+    server_id: str | None = None,
+    write_logs: Callable[[ipc.RecordBatchStreamWriter, pa.Schema], None] | None = None,
 ) -> BytesIO:
     """Serialize an exception as a complete Arrow IPC error stream.
 
@@ -128,6 +133,8 @@ def _error_response_stream(
         exc: The exception to serialize.
         schema: Arrow schema for the error stream (default empty).
         server_id: Optional server identifier injected into error metadata.
+        write_logs: Optional writer of the client logs the failed call emitted
+            before it raised; they precede the error batch.
 
     Returns:
         A ``BytesIO`` positioned at the start, containing the IPC stream.
@@ -135,6 +142,8 @@ def _error_response_stream(
     """
     buf = BytesIO()
     with new_ipc_stream(buf, schema) as writer:
+        if write_logs is not None:
+            write_logs(writer, schema)
         _write_error_batch(writer, schema, exc, server_id=server_id)
     buf.seek(0)
     return buf
@@ -195,8 +204,9 @@ def _set_error_response(
     status_code: HTTPStatus = HTTPStatus.BAD_REQUEST,
     schema: pa.Schema = _EMPTY_SCHEMA,
     server_id: str | None = None,
+    write_logs: Callable[[ipc.RecordBatchStreamWriter, pa.Schema], None] | None = None,
 ) -> None:
     """Set a Falcon response to an Arrow IPC error stream."""
     resp.content_type = _ARROW_CONTENT_TYPE
-    resp.stream = _error_response_stream(exc, schema, server_id=server_id)
+    resp.stream = _error_response_stream(exc, schema, server_id=server_id, write_logs=write_logs)
     _set_http_status(resp, status_code)
